@@ -8,6 +8,23 @@
 
 static struct printbuf *pb;
 
+/* fault overlay (as in vh_c07.c): fault_k >= 0: the fault_k-th allocation request of the next armed call fails */
+static long fault_k = -2;
+static int fault_hit;
+#define ARMED(call) \
+	do \
+	{ \
+		fault_hit = 0; \
+		if (fault_k >= 0) \
+			vh_alloc_arm(fault_k); \
+		call; \
+		if (fault_k >= 0) \
+		{ \
+			fault_hit = vh_nalloc > fault_k; \
+			vh_alloc_disarm(); \
+			fault_k = -2; \
+		} \
+	} while (0)
 static void observe(const char *op, int n, int b, int step, int off, int ch, int ret, int efbig)
 {
 	ev_begin("op");
@@ -18,6 +35,8 @@ static void observe(const char *op, int n, int b, int step, int off, int ch, int
 	ev_int("off", off);
 	ev_int("ch", ch);
 	ev_int("ret", ret);
+	ev_int("fault", fault_hit);
+	fault_hit = 0;
 	ev_bool("efbig", efbig);
 	int len = printbuf_length(pb);
 	ev_int("bpos", len);
@@ -86,7 +105,7 @@ static void do_append(int n, int b, int step, int kind)
 	char *d = big ? pattern(b, 0, 1) : pattern(b, step, n);
 	errno = 0;
 	int ret;
-	if (kind == 1)
+	if (kind == 1 && fault_k < 0)
 	{
 		printbuf_memappend_fast(pb, d, n);
 		ret = n; /* the macro has no result; failure shows as unchanged length */
@@ -94,7 +113,7 @@ static void do_append(int n, int b, int step, int kind)
 			ret = -1;
 	}
 	else
-		ret = printbuf_memappend(pb, d, n);
+		ARMED(ret = printbuf_memappend(pb, d, n));
 	int e = errno;
 	observe("append", n, b, big ? 0 : step, 0, 0, ret, ret < 0 && e == EFBIG);
 	free(d);
@@ -103,7 +122,8 @@ static void do_append(int n, int b, int step, int kind)
 static void do_memset(int off, int ch, int n)
 {
 	errno = 0;
-	int ret = printbuf_memset(pb, off, ch, n);
+	int ret;
+	ARMED(ret = printbuf_memset(pb, off, ch, n));
 	int e = errno;
 	observe("memset", n, 0, 0, off, ch & 255, ret, ret < 0 && e == EFBIG);
 }
@@ -114,9 +134,9 @@ static void do_sprintf(int n, int b, int form)
 	errno = 0;
 	int ret;
 	if (form == 1)
-		ret = sprintbuf(pb, "%.*s", n, d);
+		ARMED(ret = sprintbuf(pb, "%.*s", n, d));
 	else
-		ret = sprintbuf(pb, "%s", d);
+		ARMED(ret = sprintbuf(pb, "%s", d));
 	int e = errno;
 	observe(n > 127 ? "sprintf_heap" : "sprintf_stack", n, b ? b : 65, 0, 0, 0, ret, ret < 0 && e == EFBIG);
 	free(d);
@@ -190,6 +210,8 @@ static int drive(int start, int nexec, int nops)
 			switch (vh_below(12))
 			{
 			case 0: case 1: case 2: case 3:
+				if (vh_below(10) == 0)
+					fault_k = 0; /* now and then the growth of the buffer fails */
 				do_append(pick_size(), (int)vh_below(256), (int)vh_below(7), (int)vh_below(2));
 				break;
 			case 4: case 5: case 6:
@@ -211,10 +233,14 @@ static int drive(int start, int nexec, int nops)
 					n = pb->size - (off < 0 ? len : off) + (int)vh_below(3) - 1;
 				if (n < 0)
 					n = 0;
+				if (vh_below(10) == 0)
+					fault_k = 0;
 				do_memset(off, (int)vh_below(256), n);
 				break;
 			}
 			case 7: case 8:
+				if (vh_below(10) == 0)
+					fault_k = 0;
 				do_sprintf(pick_size(), 33 + (int)vh_below(90), (int)vh_below(2));
 				break;
 			case 9:
